@@ -1,6 +1,7 @@
 (* C05 — the arithmetic at the head of HHWheelTimer.addNode and HHWheelTimer.shiftWheels,
    regenerated from sched/hhwheel_timer.go by tools/gofunc as fragments (Generated/Wheel.v,
-   "F#prefix": the statements in front of the pointer manipulation), is the model's:
+   "F#prefix": the statements in front of the pointer manipulation; Returned = the early
+   return, Reached = the variables handed on), is the model's:
      addNode:      ticks = deadline - tickTime clamped to [0, MaxUint32],
                    expires = currTick + uint32(ticks) in uint32 arithmetic
                    (Model.bucket_of's `ticks` and `expires`, from which level and slot follow);
@@ -8,7 +9,7 @@
                    from currTick >> TVR_BITS (Model.shift_wheels).
    The constants 255 / 8 the translator folded in are Generated/Consts.v's TVR_MASK / TVR_BITS. *)
 From Coq Require Import ZArith List Bool Lia ZifyBool.
-From FV Require Import Generated.Consts Generated.Wheel C05.Model.
+From FV Require Import Generated.Consts Generated.Wheel Lib.GoSem C05.Model.
 Open Scope Z_scope.
 
 Ltac Zify.zify_post_hook ::= Z.div_mod_to_equations.
@@ -34,7 +35,7 @@ Proof. reflexivity. Qed.
 
 Lemma src_add_node cur tt n :
   0 <= cur < 2 ^ 32 -> - 2 ^ 62 < tt < 2 ^ 62 -> - 2 ^ 62 < ndl n < 2 ^ 62 ->
-  go_HHWheelTimer_addNode_prefix tt cur (ndl n) = Some (model_ticks tt n, model_expires cur tt n).
+  go_HHWheelTimer_addNode_prefix tt cur (ndl n) = Reached (model_ticks tt n, model_expires cur tt n).
 Proof.
   intros Hc Ht Hd. unfold go_HHWheelTimer_addNode_prefix, model_expires, model_ticks, max_u32, u32.
   change (2 ^ 32) with 4294967296 in *. change (2 ^ 62) with 4611686018427387904 in *. cbv zeta.
@@ -45,8 +46,8 @@ Qed.
 Lemma src_shift_wheels w : 0 <= wcur w < 2 ^ 32 ->
   shift_wheels w =
   match go_HHWheelTimer_shiftWheels_prefix (wcur w) with
-  | None => w
-  | Some (ct, ticks) => shift_loop (Z.to_nat sched_WHEEL_LEVEL) 0 ticks w
+  | Returned _ _ => w
+  | Reached (ct, ticks) => shift_loop (Z.to_nat sched_WHEEL_LEVEL) 0 ticks w
   end.
 Proof.
   intros Hc. unfold shift_wheels, go_HHWheelTimer_shiftWheels_prefix, u32. cbv zeta.
